@@ -2,6 +2,7 @@ package dataframe
 
 import (
 	"fmt"
+	"sort"
 	"time"
 )
 
@@ -68,8 +69,15 @@ func (df *DataFrame) Resample(datetimeColumn string, freq string, aggFunc func([
 		}
 	}
 
-	// Aggregate and populate the resampled DataFrame
-	for bucket, data := range grouped {
+	// Aggregate and populate the resampled DataFrame, one row per bucket in
+	// ascending time order (map iteration order is random)
+	buckets := make([]time.Time, 0, len(grouped))
+	for bucket := range grouped {
+		buckets = append(buckets, bucket)
+	}
+	sort.Slice(buckets, func(i, j int) bool { return buckets[i].Before(buckets[j]) })
+	for _, bucket := range buckets {
+		data := grouped[bucket]
 		resampled.Columns[datetimeColumn].Data = append(resampled.Columns[datetimeColumn].Data, bucket)
 		for name, values := range data {
 			resampled.Columns[name].Data = append(resampled.Columns[name].Data, aggFunc(values))
